@@ -455,16 +455,81 @@ def _cmp_transform(kind, case, impl, model):
 
 import json  # noqa: E402
 
+
+def _frag(i):
+    return i.rsplit("#", 1)[-1]
+
+
+def _vdr_summary(res):
+    """what harness/internal/impl/vdr.go:resolutionSummary extracts from did-go's reading, computed from the model's result"""
+    d = res["didDocument"]
+    md = res.get("didDocumentMetadata") or {}
+    vms = []
+    for vm in d.get("verificationMethod") or []:
+        if "publicKeyJwk" in vm:
+            mat = "jwk:" + vm["publicKeyJwk"].get("x", "")
+        elif "publicKeyBase58" in vm:
+            mat = "b58:" + vm["publicKeyBase58"]
+        else:
+            mat = "mb:" + str(vm.get("publicKeyMultibase"))
+        vms.append([_frag(vm["id"]), vm["type"], mat])
+    vms.sort(key=lambda v: v[0])
+    rels = {}
+    for name in ("authentication", "assertionMethod", "capabilityDelegation", "capabilityInvocation", "keyAgreement"):
+        rels[name] = sorted(_frag(x if isinstance(x, str) else x.get("id", "")) for x in d.get(name) or [])
+    method = md.get("method") or {}
+    return {"id": d["id"], "vm": vms, "rel": rels, "services": [[_frag(sv["id"]), sv["type"]] for sv in d.get("service") or []],
+            "aka": d.get("alsoKnownAs") or [], "equivalentId": md.get("equivalentId") or [],
+            "uc": method.get("updateCommitment", ""), "rc": method.get("recoveryCommitment", ""), "published": method.get("published", False)}
+
+
+def _cmp_c17(kind, case, impl, model):
+    from check import canon, first_diff
+    if kind != "vdr":
+        return _cmp_transform(kind, case, impl, model)
+    if not isinstance(model, dict) or model.get("class") != "ok":
+        return None if canon(impl) == canon(model) else first_diff(canon(impl), canon(model))
+    want = {"class": "ok", "created": _vdr_summary(model["result"]),
+            "read": _vdr_summary(model["read"]) if isinstance(model["read"], dict) else "err"}
+    a, b = canon(impl), canon(want)
+    return None if a == b else first_diff(a, b)
+
+
+def _c17_property(r):
+    imp = r["impl"]
+    if r["kind"] != "vdr" or not isinstance(imp, dict) or imp.get("class") != "ok":
+        return None
+    if imp.get("not_deterministic"):
+        return "vdr/same-document-different-did"
+    if imp.get("read") != imp.get("created"):
+        return "vdr/read-differs-from-create"
+    # every key referenced from exactly the relationships the caller listed it under, once
+    doc = r["case"]["doc"]
+    want = {}
+    for name in ("authentication", "assertionMethod", "capabilityDelegation", "capabilityInvocation", "keyAgreement"):
+        want[name] = sorted(set(_frag(e["id"]) for e in doc.get(name) or []))
+    if imp["created"]["rel"] != want:
+        return "vdr/relationships-not-as-supplied"
+    ids = sorted(set(i for v in want.values() for i in v))
+    if [v[0] for v in imp["created"]["vm"]] != ids:
+        return "vdr/keys-not-as-supplied"
+    if sorted(imp["created"]["aka"]) != sorted(doc.get("aka") or []) or [s[0] for s in imp["created"]["services"]] != [s["id"] for s in doc.get("services") or []]:
+        return "vdr/services-or-aka-not-as-supplied"
+    if imp["created"]["equivalentId"] != [imp["created"]["id"].rsplit(":", 1)[0]]:
+        return "vdr/equivalent-id"
+    return None
+
 PROPS["C17"] = {
-    "theorem_modules": ["Sidetree.Props.C17"],
+    "theorem_modules": ["Sidetree.Props.C17", "Sidetree.Props.C17Vdr"],
     "prescribes": "Sidetree.Did.resolve / processOperation (Props.C17)",
     "obligations": [{"name": "Shape_Did", "facts": "module:Did"}, {"name": "C17_defaultProtocol", "facts": ["defaultProtocol"]}] + _PARSER_OBL +
-                   [{"name": "Shape_Transformer", "facts": "module:Transformer"}],
-    "streams": [{"gen": "C17", "quick": 3000, "thorough": 150000}],
-    "compare": _cmp_transform,
-    "label": lambda r: _lab(r, r["model"].get("class")),
+                   [{"name": "Shape_Transformer", "facts": "module:Transformer"}, {"name": "Shape_Client", "facts": "module:Client"}],
+    "streams": [{"gen": "C17", "quick": 3000, "thorough": 150000}, {"gen": "C17vdr", "quick": 300, "thorough": 20000}],
+    "compare": _cmp_c17,
+    "property_check": _c17_property,
+    "label": lambda r: ("vdr/" + r["model"].get("class", "?") + "/keys=" + str(len(set(_frag(e["id"]) for n in ("authentication", "assertionMethod", "capabilityDelegation", "capabilityInvocation", "keyAgreement") for e in r["case"]["doc"][n])))) if r["kind"] == "vdr" else _lab(r, r["model"].get("class")),
     "nontrivial": lambda r: r["model"].get("class") == "ok",
-    "shape": lambda r: r["case"].get("did") or r["case"].get("req") or r["case"].get("spec"),
+    "shape": lambda r: r["case"].get("did") or r["case"].get("req") or r["case"].get("spec") or r["case"].get("doc"),
     "rule": "create requests that fit the handler's fixed protocol (all patch kinds it allows, three namespaces) turned into long-form DIDs, then: unchanged; every kind of single-character "
             "change; initial state re-encoded with other whitespace / member order, with padding, with non-zero trailing bits, with a line break; namespaces related by prefix (longer, "
             "shorter, with extra colon, upper case); short form; extra middle segments; suffix of another request; missing parts; tampered and re-encoded initial state; initial state "
